@@ -130,6 +130,11 @@ func runC07(r *engine.Run) {
 	r.Rule("DOM-commitall", "see C06: inside StateCache.commit's loop over the block's pending map, the next iteration is not reachable without adding the entry to the key's versions map: no write or tombstone of the block is skipped")
 	r.Rule("RET-pair", "see C06: the two results of a lookup agree (no miss is turned into a remembered answer)")
 	r.Rule("LOCK-commit", "see C08: every write into the key->versions map, a per-key versions map or the block-link map that is reachable from StateCache.commit happens with StateCache.lock held (two committers must not create a key's versions map side by side)")
+	r.Rule("WHO-versions", "a per-key versions map is only read or added to (Get, Peek, Add, ContainsOrAdd, PeekOrAdd, Contains, Len, Keys); Purge, Remove and the like are never called on one: versions leave by capacity eviction only, so the lock-free ancestor walk's memo can never become the newest entry of a map that was just emptied")
+	r.Rule("ORDER-commitclear", "in StateCache.commit no versions-map Add is reachable after the store that replaces the block's pending map: the pending writes are dropped only after all of them were published")
+	r.Rule("WHO-globalcache", "package statecache keeps no cache instance (StateCache, BlockCache, TransactionCache, QueryBlockCache) in a package-level variable: caches are per block / per transaction objects")
+	r.Rule("DEP-walk", "see C06: the ancestor walk of StateCache.Get uses only the queried hash and stored links, and memoises exactly the entry it found (all fields, the tombstone flag included) under the queried hash")
+	r.Rule("AGREE-origin", "see C14: the origin tracker's Read restores exactly what Write wrote, field by field in the same order and byte order (trie nodes are copied through the cache by encode/decode: a copy that loses the version is not the value that was handed in)")
 	r.NotDec = append(r.NotDec, "after commit the committed values are what descendant lookups return (value-level; see C06)")
 	cloneBoundary(r, "C07")
 	cloneLinear(r)
@@ -144,6 +149,11 @@ func runC07(r *engine.Run) {
 	domTxReset(r, "DOM-txreset")
 	retPair(r, "RET-pair")
 	lockCommitOnly(r, "LOCK-commit")
+	whoVersions(r, "WHO-versions")
+	orderCommitClear(r, "ORDER-commitclear")
+	whoGlobalCache(r, "WHO-globalcache")
+	depWalk(r)
+	agreeOrigin(r)
 }
 
 // cloneBoundary checks every sink in package statecache.
